@@ -631,6 +631,21 @@ theorem iter_collapsed_is_permutation {σ : Type} (V : Visitor σ) (fuel : Nat) 
   iterCollapsed_perm V fuel s content out h
 
 open XsVerif.Conv.Order in
+/-- the buffer of postponed same-named children is a queue: for the content model `((a, b?){1,6}, c)` (the
+    successive states of its visitor) and the content `a a a a a c`, the four buffered `a`s are handed back to the
+    model first in, first out — same-named siblings keep their order.  (A stack instead of a queue gives
+    1 5 4 3 2.)  Replayed on the real `iter_collapsed_content` with the real ModelVisitor by the harness. -/
+theorem iter_collapsed_fifo_witness :
+    iterCollapsed scriptVisitor 60
+      [some ["a"], some ["b"], some ["a"], some ["b"], some ["a"], some ["b"], some ["a"], some ["b"], some ["a"],
+       some ["b"], some ["a"], some ["c"], none]
+      [.child "a" true (.atom "i" "1"), .child "a" true (.atom "i" "2"), .child "a" true (.atom "i" "3"),
+       .child "a" true (.atom "i" "4"), .child "a" true (.atom "i" "5"), .child "c" true (.atom "i" "9")]
+    = .ok [.child "a" false (.atom "i" "1"), .child "a" false (.atom "i" "2"), .child "a" false (.atom "i" "3"),
+           .child "a" false (.atom "i" "4"), .child "a" false (.atom "i" "5"), .child "c" false (.atom "i" "9")] := by
+  simp [iterCollapsed, collapsedLoop, collapsedStep, findB, scriptVisitor, bAppend, flat]
+
+open XsVerif.Conv.Order in
 /-- non-vacuity: a run where the visitor forces a re-ordering (b is expected before a) -/
 example : iterUnordered scriptVisitor 10 [some ["b"], some ["a"], none] [(1, .atom "s" "t")]
     [("a", [.atom "i" "1"]), ("b", [.atom "i" "2"])]
